@@ -499,7 +499,7 @@ def run(w: Workload):
     quick = w.quick
 
     # part tables: small tables, all of them
-    max2, max3 = (150, 40) if quick else (None, 4096)
+    max2, max3 = (100, 25) if quick else (None, 4096)
     tjobs = [j for j in sidecar_jobs("tables", 3, full_pairs=False, seed=w.seed, max3=max3, max2=max2)]
     extra = []
     for tpl in HAND:
@@ -528,8 +528,8 @@ def run(w: Workload):
     n = _absorb(w, results, counters)
     ex3 = all(m["exhaustive3"] and m["exhaustive2"] for m in merged.values())
     w.part("tables", cases=n, bound="templates <= 3 tokens + 8 hand-picked nested shapes; all 1-row tables; 2-row tables: " +
-           ("all" if not quick else "all when <= 150 per sidecar, else a seeded sample of 150") + "; 3-row tables: " +
-           ("all when <= 4096 per sidecar, else a seeded sample of 4096" if not quick else "seeded sample of 40 per sidecar") +
+           ("all" if not quick else "all when <= 100 per sidecar, else a seeded sample of 100") + "; 3-row tables: " +
+           ("all when <= 4096 per sidecar, else a seeded sample of 4096" if not quick else "seeded sample of 25 per sidecar") +
            "; 3 file column orders rotated", exhaustive=ex3, sidecars=len(tjobs),
            sidecars_fully_enumerated=sum(1 for m in merged.values() if m["exhaustive3"] and m["exhaustive2"]))
 
